@@ -9,7 +9,7 @@ ALNUM = b"0123456789ABCDEFGHIJKLMNOPQRSTUVWXYZ $%*+-./:"
 C39PLAIN = b"0123456789ABCDEFGHIJKLMNOPQRSTUVWXYZ-. $/+%"
 CBDATA = b"0123456789-$:/.+"
 ONED = ["EAN13", "EAN8", "UPCA", "UPCE", "C128", "C93", "C39", "ITF", "CBAR"]
-KEYS = ("op", "sym", "c", "ec", "rd", "th", "h", "pad", "scale", "rot", "mir")
+KEYS = ("op", "sym", "c", "ec", "rd", "th", "h", "mg", "pad", "scale", "rot", "mir")
 SHOW = KEYS + ("werr", "w0", "h0", "lead", "trail", "w", "hh", "text", "err", "kind", "orient", "fmt", "mirf", "derr", "dkind", "panic")
 
 
@@ -74,8 +74,8 @@ def content(rng, sym, big):
     raise vlib.Infra("unknown symbology " + sym)
 
 
-def pose_event(case, c, rd, ec, h):
-    return dict(op="pose", sym=case["sym"], c=list(c), ec=ec, rd=rd, th=case["th"], h=h, pad=case["pad"], scale=case["scale"],
+def pose_event(case, c, rd, ec, h, mg=-1):
+    return dict(op="pose", sym=case["sym"], c=list(c), ec=ec, rd=rd, th=case["th"], h=h, mg=mg, pad=case["pad"], scale=case["scale"],
                 rot=case["rot"], mir=case["mir"], b=[], bw=0, bh=0)
 
 
@@ -115,14 +115,19 @@ def build_inputs(ctx, cases):
             c, rd = content(rng, sym, big)
             h = 0 if sym in ("QR", "DM") else [0, 9, 30, 2][(i + rep) % 4]
             ins.append(pose_event(case, c, rd, 1 + (i + rep) % 4, h))
+            if sym in ("QR", "DM"):         # the 2-D locating path: two more contents, QR also with a narrower quiet zone
+                for k in (0, 1):
+                    c, rd = content(rng, sym, big)
+                    ins.append(pose_event(case, c, rd, 1 + (i + rep + k) % 4, 0, mg=k if sym == "QR" else -1))
     # decoder level: the module matrix and its transpose
     for k in range(24 if ctx.quick else 400):
         c, _ = content(rng, "QR", not ctx.quick and k % 4 == 0)
-        if len(c) > 400:
-            c = c[:400]
+        if k % 6 == 5:                      # versions >= 7 carry version information, re-read mirrored
+            c = (c * 300)[:rng.choice([150, 260, 400])]
+        c = c[:400]
         ec = 1 + k % 4
         for mir in (0, 1):
-            ins.append(dict(op="qrmat", sym="QR", c=list(c), ec=ec, rd="own", th=0, h=0, pad=0, scale=1, rot=0, mir=mir, b=[], bw=0, bh=0))
+            ins.append(dict(op="qrmat", sym="QR", c=list(c), ec=ec, rd="own", th=0, h=0, mg=-1, pad=0, scale=1, rot=0, mir=mir, b=[], bw=0, bh=0))
     # the driver's pixel transform against Pose.tla on seeded asymmetric pictures, every pose of the grid once
     poses = sorted({(x["pad"], x["scale"], x["rot"], x["mir"]) for x in cases})
     for k, (pad, scale, rot, mir) in enumerate(poses):
@@ -130,7 +135,7 @@ def build_inputs(ctx, cases):
             continue
         w, h = rng.choice([(5, 3), (3, 7), (8, 8), (17, 2), (1, 6), (9, 1)])
         rows = [[rng.randrange(2) for _ in range(w)] for _ in range(h)]
-        ins.append(dict(op="xform", sym="QR", c=[], ec=0, rd="own", th=0, h=0, pad=pad, scale=scale, rot=rot, mir=mir,
+        ins.append(dict(op="xform", sym="QR", c=[], ec=0, rd="own", th=0, h=0, mg=-1, pad=pad, scale=scale, rot=rot, mir=mir,
                         b=chunk_rows(rows, w), bw=w, bh=h))
     return ins
 
